@@ -116,8 +116,12 @@ def run(rep: vlib.Reporter, tier: str, seed: int) -> None:
         "fault injection: generated calculate_feature/validate_* bodies, harness-side wrappers of TransformFrameworkStep.transform "
         "and JoinStep._merge_data"]
     big = tier == "thorough"
-    specs, gstats = gen_specs(rng, 120 if big else 16)
     found = False
+    # ---- protocol level: histories of real THREADING / MULTIPROCESSING runs must be traces of Model/Worker.v; every disagreement
+    # (model / judge / observe) is a violation whose replay object is the case (first, so that its findings are among those printed)
+    if worker_proto.report(rep, "C08", tier, seed):
+        found = True
+    specs, gstats = gen_specs(rng, 120 if big else 16)
     cases: List[Dict[str, Any]] = []
     n_mp = 0
     for spec in specs:
@@ -216,10 +220,6 @@ def run(rep: vlib.Reporter, tier: str, seed: int) -> None:
                     "{run, stream_run}, a few MULTIPROCESSING runs, api_data-missing and declared-type faults. Each case is distinct "
                     "by (plan, fault, mode, entry point)")
     rep.sample({k: cases[0][k] for k in ("fault", "mode", "stream", "status", "wall", "begin", "raised")} if cases else {})
-    # ---- protocol level: histories of real THREADING / MULTIPROCESSING runs must be traces of Model/Worker.v; every disagreement
-    # (model / judge / observe) is a violation whose replay object is the case
-    if worker_proto.report(rep, "C08", tier, seed):
-        found = True
     if not pr.ok and not found:
         rep.finding("proof-broken", "Props/C08.v no longer checks",
                     {"failed_files": pr.failed_files, "forbidden": pr.forbidden, "log_tail": pr.log[-3000:]}, found_input=False)
